@@ -264,6 +264,7 @@ class SimFS:
         self.fake_fds = {}
         self._sched_n = {}
         self.sched_points = 0
+        self.rel_base = None
         self.nsys = 0
         self.dead = False        # after a crash: nothing reaches the disk any more
         self.crashed = False
@@ -324,6 +325,7 @@ class SimFS:
         self.fake_fds = {}
         self._sched_n = {}
         self.sched_points = 0
+        self.rel_base = None
         self.nsys = 0
         self.dead = False
         self.crashed = False
@@ -341,12 +343,16 @@ class SimFS:
                 p = p.decode()
             except UnicodeDecodeError:
                 return False
+        if isinstance(p, str) and p and not p.startswith("/") and getattr(self, "rel_base", None):
+            return True     # a relative path, while the simulated process's working directory lies on this disk
         return isinstance(p, str) and (p == self.root or p.startswith(self.root + "/"))
 
     def _norm(self, p):
         p = os.fspath(p)
         if isinstance(p, bytes):
             p = p.decode()
+        if p and not p.startswith("/") and getattr(self, "rel_base", None):
+            p = self.rel_base + "/" + p
         return posixpath.normpath(p)
 
     def _ino(self, q):
@@ -377,7 +383,8 @@ class SimFS:
         if sk is not None:
             import threading
             th = threading.current_thread()
-            if th is not threading.main_thread():
+            if th is not threading.main_thread() and not th.name.startswith("caller-"):
+                # (caller threads of a threaded host are scheduled exactly by sim/threads.py and need no noise)
                 # netconan has no threads; if a change introduces worker threads, their syscalls are delayed by a
                 # keyed pattern so that two executions with different keys see different interleavings (best effort:
                 # the interpreter's own thread switching is not under the simulator's control)
